@@ -59,7 +59,7 @@ PROPS = {
         ],
     },
     "C06": {
-        "units": ["resp", "net", "cmd"], "label_prefixes": ["C06."], "level": "proof",
+        "units": ["resp", "net", "cmd"], "label_prefixes": ["C06.", "C08.", "C07."], "level": "proof",
         "trusted": ["T1", "T2", "T3", "T4", "T4b", "T5", "T5b", "T6", "T7", "T13", "T13b", "T14", "TKV", "TSPAWN", "TSELECT", "TITER", "RW", "DERIVE"],
         "assumptions": [
             "what is proved, per request: (1) Command::try_from decodes a frame exactly as spec_command says (array of bulk strings, command name compared byte for byte, keys UTF-8, values arbitrary bytes, arity checked) -- C06.decode.*; (2) Get/Set/Del::apply on Ok have written exactly ONE frame, encode(reply(cmd, map before)), flushed it, left the unread input untouched and changed the map to effect(cmd, map before) -- C06.*.reply; DEL counts its keys in turn (del_fold) -- C06.del.count_in_turn; (3) read_frame decodes the first complete frame of the input regardless of how it is segmented and leaves the rest for the next call (C08.read_frame.*, unit net), so pipelined requests are seen one by one in order",
@@ -72,7 +72,7 @@ PROPS = {
         ],
     },
     "C01": {
-        "units": ["store", "log"], "label_prefixes": ["C01."], "level": "proof",
+        "units": ["store", "log"], "label_prefixes": ["C01.", "C04.read.valid_location", "C04.copy.valid_location"], "level": "proof",
         "trusted": ["T1", "T4", "T8", "T11", "T12", "T13", "T13s", "TLOG", "TARC", "RW", "DERIVE"] + ["T9", "T10"],
         "assumptions": [
             "step contracts are proved on Writer::{put,delete,merge,new_active_datafile} and Reader::get (the Handle methods only add the closed check and the lock / pool hand-off, T8); 'for every history' follows because every operation requires and re-establishes the same invariant (Index + WriterWf + StatsWeak) and states its effect on the whole map",
@@ -81,7 +81,7 @@ PROPS = {
         ],
     },
     "C02": {
-        "units": ["store", "log"], "label_prefixes": ["C02."], "level": "proof",
+        "units": ["store", "log"], "label_prefixes": ["C02.", "C01.write.appended", "C01.append.index_exact"], "level": "proof",
         "trusted": ["T1", "T4", "T8", "T11", "T12", "T13", "T13s", "TLOG", "TARC", "RW", "DERIVE"],
         "assumptions": [
             "start-up is specified independently of the code as spec_recover(w) = fold over the directory log (files in ascending id order, hint file instead of data file where one exists; a value binds, a tombstone unbinds); rebuild_storage is proved to compute exactly it, and put / delete / rollover are proved to keep spec_recover(w) == key directory",
@@ -91,7 +91,7 @@ PROPS = {
         ],
     },
     "C04": {
-        "units": ["store", "log"], "label_prefixes": ["C04."], "level": "proof",
+        "units": ["store", "log"], "label_prefixes": ["C04.", "C01.read.exact", "C01.reader.at_exact"], "level": "proof",
         "trusted": ["T1", "T4", "T8", "T11", "T12", "T13", "T13s", "TLOG", "TARC", "RW", "DERIVE"] + ["T9", "T10"],
         "assumptions": [
             "SCOPE: only the sequential rely/guarantee obligations are machine-checked: every key-directory entry published by put / merge names a complete, flushed record (Index at every guard release, C04.*.valid_location at every read/copy), LogReader's slice is in bounds after the conditional re-map whenever the FILE is long enough (C04.reader.slice_in_bounds), append flushes before returning (C04.append.flushed_before_ack), Handle::get returns its reader to the pool on every path and the `expect` on push cannot fail (C04.get.pool_preserved)",
@@ -99,7 +99,7 @@ PROPS = {
         ],
     },
     "C12": {
-        "units": ["store"], "label_prefixes": ["C12.", "C02.hintfile", "C02.datafile", "C02.rebuild"], "level": "proof",
+        "units": ["store"], "label_prefixes": ["C12.", "C02.hintfile", "C02.datafile", "C02.rebuild", "C05.copy.identical_record"], "level": "proof",
         "trusted": ["T1", "T4", "T8", "T11", "T12", "T13", "T13s", "TLOG", "TARC", "RW", "DERIVE"],
         "assumptions": [
             "C12.hint_equiv (pure lemma): HintConsistent(w) implies spec_recover(w) == spec_recover_nohint(w); merge is proved to establish / keep HintConsistent for every output file, across in-loop rollovers; the loader is proved to compute the two folds",
@@ -141,7 +141,7 @@ PROPS = {
         ],
     },
     "C05": {
-        "units": ["store", "log"], "label_prefixes": ["C05.", "C01.merge"], "level": "proof",
+        "units": ["store", "log"], "label_prefixes": ["C05.", "C01.merge", "C12.merge", "C04.copy.valid_location"], "level": "proof",
         "trusted": ["T1", "T4", "T8", "T9", "T10", "T11", "T12", "T13", "T13s", "TLOG", "TARC", "RW", "DERIVE"],
         "assumptions": [
             "fileids_to_merge is verified to return a subset of the files with statistics -- nothing else is assumed about the selection, so merge's contract holds for EVERY selected subset (the f64 threshold arithmetic is irrelevant)",
